@@ -77,10 +77,8 @@ Section LitSpec.
                     let is_bz := match br with IBZ _ => true | _ => false end in
                     match b_next pred with
                     | [j] =>
-                        match ins_next (fn_prog f) (List.last (b_ins pred) 0) with
-                        | Some (_ :: _ :: _) => Some None
-                        | _ => if Nat.eqb succ j then Some (Some (cond_of a, negb is_bz)) else Some None
-                        end
+                        if branch_to_next (fn_prog f) br (List.last (b_ins pred) 0) then Some None
+                        else if Nat.eqb succ j then Some (Some (cond_of a, negb is_bz)) else Some None
                     | d :: j :: _ =>
                         if Nat.eqb succ d then Some (Some (cond_of a, is_bz))
                         else if Nat.eqb succ j then Some (Some (cond_of a, negb is_bz))
@@ -164,7 +162,7 @@ Proof.
   destruct (negb (nat_mem succ nx)); [discriminate|].
   destruct (fexit_op f pred) as [xop|] eqn:Ex; [|discriminate].
   destruct (fexit_op_inv _ _ _ Ex) as [_ Hop].
-  assert (Main : forall (z : bool), is_check xop = true ->
+  assert (Main : forall (z tn : bool), is_check xop = true ->
     match emulate (fn_prog f) (b_ins pred) [] with
     | None => None
     | Some ast =>
@@ -173,10 +171,8 @@ Proof.
         | Some (a :: _) =>
             match b_next pred with
             | [j] =>
-                match ins_next (fn_prog f) (List.last (b_ins pred) 0) with
-                | Some (_ :: _ :: _) => Some None
-                | _ => if Nat.eqb succ j then Some (Some (cond_of a, negb z)) else Some None
-                end
+                if tn then Some None
+                else if Nat.eqb succ j then Some (Some (cond_of a, negb z)) else Some None
             | d :: j :: _ =>
                 if Nat.eqb succ d then Some (Some (cond_of a, z))
                 else if Nat.eqb succ j then Some (Some (cond_of a, negb z))
@@ -185,7 +181,7 @@ Proof.
             end
         end
     end = Some (Some (c, b)) -> block_leaf f pred op pos args).
-  { intros z Hck H0.
+  { intros z tn Hck H0.
     destruct (emulate (fn_prog f) (b_ins pred) []) as [ast|] eqn:Hast; [|discriminate].
     destruct (args_of ast (last (b_ins pred) 0)) as [[|a rest]|] eqn:Ea; try discriminate.
     destruct (args_of_In _ _ _ Ea) as (o & Hin).
@@ -193,8 +189,7 @@ Proof.
     assert (Hc : a <> SUnknown -> c = cond_of a).
     { intros Hne. destruct a as [|aop ap aa au]; [congruence|].
       destruct (b_next pred) as [|d [|j r]]; [discriminate| |].
-      - destruct (ins_next (fn_prog f) (last (b_ins pred) 0)) as [[|s1 [|s2 r']]|];
-          try discriminate; destruct (Nat.eqb succ d); inversion H0; reflexivity.
+      - destruct tn; try discriminate; destruct (Nat.eqb succ d); inversion H0; reflexivity.
       - destruct (Nat.eqb succ d); [inversion H0; reflexivity|].
         destruct (Nat.eqb succ j); inversion H0; reflexivity. }
     destruct a as [|aop ap aa au]; [discriminate|].
@@ -676,7 +671,7 @@ Section LitDomain.
     unfold edge_constraint, edge_cond.
     destruct (next_global f pred) as [nx|]; [|reflexivity].
     destruct (negb (nat_mem succ nx)); [reflexivity|].
-    assert (Main : forall z : bool,
+    assert (Main : forall z tn : bool,
       match emulate p (b_ins pred) [] with
       | None => None
       | Some ast =>
@@ -686,10 +681,8 @@ Section LitDomain.
               let '(tv, fv) := ass (cond_of a) in
               match b_next pred with
               | [j] =>
-                  match ins_next p (List.last (b_ins pred) 0) with
-                  | Some (_ :: _ :: _) => Some univ
-                  | _ => if Nat.eqb succ j then Some (if z then fv else tv) else Some univ
-                  end
+                  if tn then Some univ
+                  else if Nat.eqb succ j then Some (if z then fv else tv) else Some univ
               | d :: j :: _ =>
                   if Nat.eqb succ d then Some (if z then tv else fv)
                   else if Nat.eqb succ j then Some (if z then fv else tv)
@@ -707,10 +700,8 @@ Section LitDomain.
             | Some (a :: _) =>
                 match b_next pred with
                 | [j] =>
-                    match ins_next p (List.last (b_ins pred) 0) with
-                    | Some (_ :: _ :: _) => Some None
-                    | _ => if Nat.eqb succ j then Some (Some (cond_of a, negb z)) else Some None
-                    end
+                    if tn then Some None
+                    else if Nat.eqb succ j then Some (Some (cond_of a, negb z)) else Some None
                 | d :: j :: _ =>
                     if Nat.eqb succ d then Some (Some (cond_of a, z))
                     else if Nat.eqb succ j then Some (Some (cond_of a, negb z))
@@ -719,7 +710,7 @@ Section LitDomain.
                 end
             end
         end).
-    { intros z. destruct (emulate p (b_ins pred) []) as [ast|]; [|reflexivity].
+    { intros z tn. destruct (emulate p (b_ins pred) []) as [ast|]; [|reflexivity].
       destruct (args_of ast (last (b_ins pred) 0)) as [[|a rest]|]; try reflexivity.
       destruct a as [|aop ap aa au]; [reflexivity|].
       set (c0 := cond_of (SKnown aop ap aa au)).
@@ -727,12 +718,12 @@ Section LitDomain.
       assert (Et : side_of true (ass c0) = tv) by (rewrite Ea; reflexivity).
       assert (Ef : side_of false (ass c0) = fv) by (rewrite Ea; reflexivity).
       destruct (b_next pred) as [|d [|j r]]; [reflexivity| |].
-      - destruct (ins_next p (last (b_ins pred) 0)) as [[|s1 [|s2 r']]|];
+      - destruct tn;
           try reflexivity; destruct (Nat.eqb succ d); destruct z; cbn [option_map negb]; rewrite ?Et, ?Ef; reflexivity.
       - destruct (Nat.eqb succ d); [destruct z; cbn [option_map negb]; rewrite ?Et, ?Ef; reflexivity|].
         destruct (Nat.eqb succ j); destruct z; cbn [option_map negb]; rewrite ?Et, ?Ef; reflexivity. }
     destruct (fexit_op f pred) as [xop|]; [|reflexivity].
-    destruct xop; try reflexivity; first [exact (Main true) | exact (Main false)].
+    destruct xop; try reflexivity; first [exact (Main true _) | exact (Main false _)].
   Qed.
 
   Theorem edge_constraint_justified pred succ c :
